@@ -13,7 +13,7 @@ def reg(prop):
 
 @reg('C01')
 def c01(tier):
-    return V.generic_pbt('C01', tier, n_quick=30000, n_thorough=100000, floor=100,
+    return V.generic_pbt('C01', tier, n_quick=30000, n_thorough=1000000, floor=100,
                          assumptions=['frames are complete (declared shape) when saved; strings printable ASCII; names unique modulo case',
                                       'channel identity is positional (README submits unnamed channels)'])
 
@@ -23,35 +23,35 @@ API_ASSUME = ['points and channels are declared by name before frames are added 
 
 @reg('C05')
 def c05(tier):
-    return V.generic_pbt('C05', tier, n_quick=30000, n_thorough=100000, floor=100, assumptions=API_ASSUME)
+    return V.generic_pbt('C05', tier, n_quick=30000, n_thorough=1000000, floor=100, assumptions=API_ASSUME)
 
 @reg('C06')
 def c06(tier):
-    return V.generic_pbt('C06', tier, n_quick=30000, n_thorough=100000, floor=100, assumptions=API_ASSUME)
+    return V.generic_pbt('C06', tier, n_quick=30000, n_thorough=1000000, floor=100, assumptions=API_ASSUME)
 
 @reg('C08')
 def c08(tier):
-    return V.generic_pbt('C08', tier, n_quick=30000, n_thorough=100000, floor=100, assumptions=API_ASSUME +
+    return V.generic_pbt('C08', tier, n_quick=30000, n_thorough=1000000, floor=100, assumptions=API_ASSUME +
                          ['only caller-owned objects are mutated (copies of stored frames obtained through accessors are shallow by design)'])
 
 @reg('C10')
 def c10(tier):
-    return V.generic_pbt('C10', tier, n_quick=30000, n_thorough=100000, floor=100, assumptions=API_ASSUME)
+    return V.generic_pbt('C10', tier, n_quick=30000, n_thorough=1000000, floor=100, assumptions=API_ASSUME)
 
 @reg('C07')
 def c07(tier):
-    return V.generic_pbt('C07', tier, n_quick=40000, n_thorough=120000, floor=100, assumptions=API_ASSUME +
+    return V.generic_pbt('C07', tier, n_quick=40000, n_thorough=1000000, floor=100, assumptions=API_ASSUME +
                          ['deviations the documentation does not mention (sub-frame count, undeclared columns, duplicated names inside one frame) may be accepted or refused; the history ends there'])
 
 @reg('C09')
 def c09(tier):
-    return V.generic_pbt('C09', tier, n_quick=40000, n_thorough=200000, floor=100, assumptions=API_ASSUME +
+    return V.generic_pbt('C09', tier, n_quick=40000, n_thorough=1000000, floor=100, assumptions=API_ASSUME +
                          ['mandatory POINT/ANALOG parameters are only touched by the documented declaration calls; custom parameter names never collide with them',
                           'arrays are capped at 3000 elements (600 strings): larger shapes are exercised only as refused calls'])
 
 @reg('C11')
 def c11(tier):
-    return V.generic_pbt('C11', tier, n_quick=25000, n_thorough=60000, floor=100, assumptions=API_ASSUME +
+    return V.generic_pbt('C11', tier, n_quick=25000, n_thorough=600000, floor=100, assumptions=API_ASSUME +
                          ['name look-up is exact and case-sensitive (a padded query is a different name); expected results come from a list model built from the positional accessors'])
 
 FILE_ASSUME = ['files are little-endian, float format, header consistent with POINT/ANALOG parameters, POINT and ANALOG groups present',
@@ -60,12 +60,12 @@ FILE_ASSUME = ['files are little-endian, float format, header consistent with PO
 
 @reg('C02')
 def c02(tier):
-    return V.generic_pbt('C02', tier, n_quick=20000, n_thorough=150000, floor=100, assumptions=FILE_ASSUME,
+    return V.generic_pbt('C02', tier, n_quick=20000, n_thorough=400000, floor=100, assumptions=FILE_ASSUME,
                          fuzz=[{'target': 'fuzz_c02', 'seeds': [], 'budget': (10, 300), 'jobs': (8, 16), 'max_len': 600}])
 
 @reg('C04')
 def c04(tier):
-    return V.generic_pbt('C04', tier, n_quick=8000, n_thorough=100000, floor=100, assumptions=FILE_ASSUME +
+    return V.generic_pbt('C04', tier, n_quick=8000, n_thorough=200000, floor=100, assumptions=FILE_ASSUME +
                          ['3 generations (quick) / 4 (thorough); the three vendor files of the test suite are fixed seeds'])
 
 def c03_sweep_cases(tier):
@@ -95,7 +95,7 @@ def c03(tier):
     import shutil
     d, paths = c03_sweep_cases(tier)
     try:
-        return V.generic_pbt('C03', tier, n_quick=20000, n_thorough=60000, floor=500, assumptions=API_ASSUME + FILE_ASSUME[:2], extra_cases=paths,
+        return V.generic_pbt('C03', tier, n_quick=20000, n_thorough=600000, floor=500, assumptions=API_ASSUME + FILE_ASSUME[:2], extra_cases=paths,
                              extra_cov={'residue_sweep': 'all 512 residues of (parameter-section length mod 512) enumerated x %d object shape(s)' % (3 if tier == 'thorough' else 1)})
     finally:
         shutil.rmtree(d, ignore_errors=True)
@@ -148,7 +148,7 @@ def c12(tier):
     import shutil
     d, paths = c12_cases(tier)
     try:
-        return V.generic_pbt('C12', tier, n_quick=6000, n_thorough=40000, floor=200, assumptions=FILE_ASSUME, extra_cases=paths,
+        return V.generic_pbt('C12', tier, n_quick=6000, n_thorough=100000, floor=200, assumptions=FILE_ASSUME, extra_cases=paths,
                              extra_cov={'exhaustive': True,
                                         'exhaustive_note': 'all 2^8 byte values and all 2^16 int16 values in parameters, 2 x 256 x 7 float patterns (sign x exponent x mantissa class) in float parameters, point coordinates+residuals, analog samples and event times are enumerated completely; header words are boundary-dense (quick) / exhaustive for gap, key-label and first-key-block words (thorough); the rapidcheck part adds random files with raw 32-bit float patterns',
                                         'enumerated_cases': len(paths)})
@@ -185,7 +185,7 @@ def c16(tier):
     d, paths = c16_sweep_cases(tier)
     try:
         seeds = ['property: C16\n' + b for b in C16_BASES]
-        return V.generic_pbt('C16', tier, n_quick=40000, n_thorough=400000, floor=500, extra_cases=paths,
+        return V.generic_pbt('C16', tier, n_quick=40000, n_thorough=1500000, floor=500, extra_cases=paths,
                              fuzz=[{'target': 'fuzz_c16', 'seeds': seeds, 'budget': (12, 600), 'jobs': (8, 16), 'max_len': 8192}],
                              assumptions=['work bound: at most 64 x file size + 2^20 read calls (hook H1, deterministic, no wall clock); single allocations above 1 GiB abort under ASan',
                                           'inputs whose header/parameters declare frame data far beyond the file size (known finding KF-D17) are recognised through hook H2, skipped and counted'],
@@ -195,7 +195,7 @@ def c16(tier):
 
 @reg('C13')
 def c13(tier):
-    return V.generic_pbt('C13', tier, n_quick=30000, n_thorough=300000, floor=500, assumptions=API_ASSUME +
+    return V.generic_pbt('C13', tier, n_quick=30000, n_thorough=1000000, floor=500, assumptions=API_ASSUME +
                          ['monitors: AddressSanitizer (bounds, use-after-free, alloc/dealloc mismatch) and _GLIBCXX_ASSERTIONS (container indexing); LeakSanitizer and UBSan arithmetic are not part of the verdict',
                           'the checks of C01-C12, C14, C16, C17 run under the same monitors and report a memory error as a violation of the property being run'])
 
@@ -258,7 +258,7 @@ def c17(tier):
     import shutil
     d, paths = c17_cases(tier)
     try:
-        return V.generic_pbt('C17', tier, n_quick=1500, n_thorough=6000, floor=40, extra_cases=paths, shards_quick=16,
+        return V.generic_pbt('C17', tier, n_quick=1500, n_thorough=20000, floor=40, extra_cases=paths, shards_quick=16,
                              assumptions=['"within capacity" is decided on the snapshot of the object by rules taken from the C3D format (one-byte lengths and dimensions, 16-bit integers and record offsets, 255 parameter blocks, POINT:FRAMES 16-bit signed)',
                                           'beyond a limit either a refusal by write() or a faithful round trip is accepted'],
                              extra_cov={'enumerated_cases': len(paths), 'limits': sorted(C17_LIMITS) + ['last-frame-65535']})
@@ -333,7 +333,7 @@ def c14(tier):
     except RuntimeError as e:
         res.broken = 'build failed: ' + str(e)[:2000]
         return V.finish('C14', tier, 'exploration', res, {'evaluations': 0, 'distinct_nontrivial': 0, 'rule': '', 'samples': []}, t0)
-    n = 60000 if tier == 'thorough' else 12000
+    n = 200000 if tier == 'thorough' else 12000
     shards = 16
     m = V.run_pbt_shards('C14', bins, n, 100, shards, tier)
     env = {'VERIF_TIER': tier, 'VERIF_OPEN_FINDINGS': ' '.join(k['id'] for k in V.open_findings())}
@@ -346,7 +346,7 @@ def c14(tier):
         seen.add(f['text'])
         V.confirm_and_report(res, 'C14', bins['replay'], f['text'], f['msg'], f['crash'], env)
     # cross-process poison differential on a frozen corpus
-    ncorp = 20000 if tier == 'thorough' else 1000
+    ncorp = 100000 if tier == 'thorough' else 1000
     cdir = os.path.join(V.WORK, 'c14-corpus-%d' % os.getpid())
     shutil.rmtree(cdir, ignore_errors=True); os.makedirs(cdir)
     nsh = 16 if tier == 'thorough' else 4
@@ -395,7 +395,7 @@ def c14(tier):
     # thorough: the same saves under valgrind memcheck
     vg_cases = 0; vg_errors = 0
     if tier == 'thorough':
-        sub = cases[:2000]
+        sub = cases[:4000]
         vchunks = [sub[i::16] for i in range(16)]
         def vwork(chunk):
             if not chunk:
@@ -465,7 +465,7 @@ def c15(tier):
             f.write('property: C15\n' + body)
         paths.append(p)
     try:
-        return V.generic_pbt('C15', tier, n_quick=48, n_thorough=800, size_quick=40, size_thorough=70, level='fault_enumeration', floor=20, extra_cases=paths,
+        return V.generic_pbt('C15', tier, n_quick=48, n_thorough=1600, size_quick=40, size_thorough=70, level='fault_enumeration', floor=20, extra_cases=paths,
                              shards_quick=16, shards_thorough=16,
                              assumptions=['faults: missing directory, path through a file, directory as target, read-only file (effective uid dropped), /dev/full, RLIMIT_FSIZE=k with SIGXFSZ ignored',
                                           'objects whose output is <= 6000 bytes (thorough: 20000) get a failure injected at EVERY offset; larger ones every 97th (thorough 7th) byte plus block and stream-buffer boundaries +-1',
@@ -637,7 +637,7 @@ def c19(tier):
         return V.finish('C19', tier, 'exploration', res, {'evaluations': 0, 'distinct_nontrivial': 0, 'rule': '', 'samples': []}, t0)
     wd = os.path.join(V.WORK, 'c19-%d' % os.getpid())
     shutil.rmtree(wd, ignore_errors=True); os.makedirs(wd)
-    n = 20000 if tier == 'thorough' else 3000
+    n = 50000 if tier == 'thorough' else 3000
     procs = []
     for i, (gid, share) in enumerate((('C14', 0.45), ('C02', 0.35), ('C10', 0.15), ('C17', 0.05))):
         sd = os.path.join(wd, 'corpus-' + gid); os.makedirs(sd)
